@@ -369,10 +369,33 @@ func runParent(id string, tier Tier) int {
 			continue
 		}
 		site := crashSite(cr.stderr)
+		merged.Caps = appendUniq(merged.Caps, "a worker process crashed; its partial counts are lost")
+		if cr.marker == nil {
+			// The check had not marked a case (it did not expect this call to be able to crash the process): the
+			// crash is attributed to the work unit and confirmed by running that unit alone, twice, in fresh processes.
+			again := 0
+			for i := 0; i < 2; i++ {
+				dir := filepath.Join(scratch, fmt.Sprintf("unitcrash.%d.%d", cr.unit, i))
+				os.MkdirAll(dir, 0755)
+				cmd := exec.Command(self, "worker", id, string(tier), "0", strconv.Itoa(units+1), strconv.Itoa(cr.unit), dir, strconv.FormatInt(time.Now().Add(10*time.Minute).Unix(), 10))
+				cmd.Env = append(os.Environ(), "KV_SCRATCH="+dir)
+				if out, _ := runWithTimeout(cmd, 11*time.Minute); strings.Contains(out, "CRASHED") {
+					again++
+				}
+			}
+			if again == 2 {
+				v := Violation{Property: id, Sig: "unit-crash:" + site, Case: json.RawMessage(fmt.Sprintf(`{"work_unit":%d,"tier":%q}`, cr.unit, tier)),
+					Detail: fmt.Sprintf("the worker process crashed in work unit %d (and again, twice, when that unit was run alone in a fresh process: `kv worker %s %s 0 %d %d <dir> 0`):\n%s", cr.unit, id, tier, units+1, cr.unit, cr.stderr)}
+				merged.Violations = append(merged.Violations, v)
+				merged.ViolationsN++
+			} else {
+				merged.Caps = appendUniq(merged.Caps, fmt.Sprintf("a worker crash in unit %d did not recur when the unit was run alone (%d/2) and is not reported", cr.unit, again))
+			}
+			continue
+		}
 		v := Violation{Property: id, Sig: "process-crash:" + site, Case: jsonOrString(cr.marker), Detail: cr.stderr}
 		merged.Violations = append(merged.Violations, v)
 		merged.ViolationsN++
-		merged.Caps = appendUniq(merged.Caps, "a worker process crashed; its partial counts are lost")
 	}
 	if ch.Finalize != nil {
 		ch.Finalize(merged)
@@ -410,7 +433,7 @@ func runParent(id string, tier Tier) int {
 		os.WriteFile(path, b, 0644)
 		ok := 0
 		const tries = 5
-		if ch.Replay == nil || strings.HasPrefix(v.Sig, "finalize:") {
+		if ch.Replay == nil || strings.HasPrefix(v.Sig, "finalize:") || strings.HasPrefix(v.Sig, "unit-crash:") {
 			ok = tries
 		} else {
 			for i := 0; i < tries; i++ {
